@@ -47,6 +47,23 @@ func VH_C28_return(kind, rc, behaviour, typ int) {
 		w.call(func() error { return c.Sleep(sleepFor) })
 	case 8:
 		w.call(c.Disconnect)
+	case 9:
+		// Sleep from the awake state: a first sleep cycle completes normally, then Sleep again
+		// (no DISCONNECT is sent this time; the wake-up timer is the only thing armed)
+		sleepFor = 2 * time.Second
+		w.call(func() error { return c.Sleep(sleepFor) })
+		w.gwSends(pkts1.NewDisconnect(0))
+		vSleepUntil(vNow() + int64(sleepFor) + int64(100*time.Millisecond))
+		w.gwSends(pkts1.NewPingresp())
+		vAssume(vAnd(w.ret, w.err == nil))
+		w.conn.take()
+		t0 = vNow()
+		bound = int64(sleepFor) + int64(maxPingrespWait)
+		w.call(func() error { return c.Sleep(sleepFor) })
+		// the gateway misbehaves at a symbolic instant during the sleep
+		at := vNondetDelay("misbehaves_after")
+		vAssume(vAnd(at >= 0, at < int64(sleepFor)))
+		vSleepUntil(vNow() + at)
 	}
 	switch behaviour {
 	case 1:
